@@ -199,13 +199,13 @@ From LH Require Import Proofs.UsageBindUndef.
 
 Theorem usage_diags_agree c b all others :
   in_fragment b = true -> pos_clean b = true -> flags_ok b = true ->
-  decl_locs_distinct b = true -> later_elsewhere c b others = false ->
+  decl_locs_distinct b = true ->
   (forall n, name_mem n all = name_mem n (gnames (s1_gmap (first_pass c b))) || name_mem n others) ->
-  forall x, In x (go_diags c b all) <-> In x (spec_diags c b others).
+  forall x, In x (go_diags c b all others) <-> In x (spec_diags c b others).
 Proof.
-  intros Hf Hp Hfl Hd Hle Hall x. unfold go_diags, spec_diags. rewrite !in_app_iff.
+  intros Hf Hp Hfl Hd Hall x. unfold go_diags, spec_diags. rewrite !in_app_iff.
   rewrite (usage_unused_agree c b Hf Hp Hd x).
-  rewrite (usage_undefined_agree c b all others Hf Hp Hfl Hle Hall). reflexivity.
+  rewrite (usage_undefined_agree c b all others Hf Hp Hfl Hall). reflexivity.
 Qed.
 
 (* ------------------------------------------------------------------ pos_clean discharged from the layout hypothesis Laid *)
@@ -214,9 +214,9 @@ From LH Require Import Proofs.UsageBindLaid.
 
 Theorem usage_diags_agree_laid W c b all others :
   in_fragment b = true -> LuaScope.laid_b W b = true -> flags_ok b = true ->
-  decl_locs_distinct b = true -> later_elsewhere c b others = false ->
+  decl_locs_distinct b = true ->
   (forall n, name_mem n all = name_mem n (gnames (s1_gmap (first_pass c b))) || name_mem n others) ->
-  forall x, In x (go_diags c b all) <-> In x (spec_diags c b others).
+  forall x, In x (go_diags c b all others) <-> In x (spec_diags c b others).
 Proof.
   intros Hf Hl. apply usage_diags_agree; auto. exact (usage_laid_pos_clean W b Hf Hl).
 Qed.
